@@ -142,4 +142,18 @@ theorem c18_mdl_header_total (b : Bytes) : ¬ faults (C18Mdl.mdlHeader b) := (C1
 theorem c18_mdl_header_alloc (b : Bytes) : (C18Mdl.mdlHeader b).peak ≤ 64 * b.length + 16777216 :=
   (C18Mdl.mdlHeader_good b).2
 
+/-- witness of the defect repaired by `fixes/C18-50`: 18 elements before the end marker make the
+declaration reader of the pinned commit underflow `17*8 - (len+1)*8` -/
+theorem c18_mdl_declaration_unfixed_witness :
+    faults (P.run C18Mdl.declarationUnfixed (List.replicate 144 0 ++ [255, 0, 0, 0, 0, 0, 0, 0])) :=
+  faults_of_isFault (by decide +kernel)
+/-- the repaired reader rejects the same input -/
+example : (P.run C18Mdl.declaration (List.replicate 144 0 ++ [255, 0, 0, 0, 0, 0, 0, 0])).cls = "none" := by
+  decide +kernel
+/-- witness of the defect repaired by `fixes/C18-52`: an unterminated name runs off the string block -/
+theorem c18_mdl_name_scan_unfixed_witness : faults (C18Mdl.nameScanUnfixed [0x61, 0x62] 3 0) :=
+  faults_of_isFault (by decide +kernel)
+example : (C18Mdl.readName [0x61, 0x62] 0).cls = "none" := by decide +kernel
+example : (C18Mdl.readName [0x61, 0x62, 0] 0).cls = "some" := by decide +kernel
+
 end Physis.C18
